@@ -408,5 +408,21 @@ impl Model {
         }
         Ok((sets, matrix))
     }
+
+    /// Verification hook: of a freshly merged model, the numbers of right and left connection
+    /// ids (both including id 0), i.e. the dimensions `write_dictionary` puts into matrix.def.
+    pub fn verif_merged_dims(&self) -> Result<(usize, usize)> {
+        let merged = self.data.raw_model.merge()?;
+        Ok((
+            merged.right_conn_to_left_feats.len() + 1,
+            merged.left_conn_to_right_feats.len() + 1,
+        ))
+    }
+
+    /// Verification hook: the label ids (1-based indices into the merged feature sets) of the
+    /// user-lexicon entries read so far, in order.
+    pub fn verif_user_labels(&self) -> Vec<u32> {
+        self.user_entries.iter().map(|e| e.2.get()).collect()
+    }
 }
 
